@@ -1,2 +1,15 @@
 import SpoxModel.Props.C12
 /-! `#print axioms` for every property theorem of C12; parsed by ./check. -/
+#print axioms C12.generated_good
+#print axioms C12.renames_restored_shape
+#print axioms C12.renames_restored
+#print axioms C12.names_in_force
+#print axioms C12.renames_pinned_counterexample
+#print axioms C12.renames_nofinally_counterexample
+#print axioms C12.build_restores_names
+#print axioms C12.build_deterministic
+#print axioms C12.build_deterministic_counterexample
+#print axioms C12.writes_allowed
+#print axioms C12.var_writes_ok
+#print axioms C12.swaps_restored
+#print axioms C12.inline_copies_first
